@@ -221,7 +221,13 @@ def run_harness(h, tier, extra_args=()):
             r["status"] = "PROVED"
     elif r["verdict"] == "FAILED" and r["failed"] and not r["error"]:
         only_unwind = all("unwinding assertion" in f["desc"] for f in r["failed"])
-        r["status"] = "UNWIND" if only_unwind else "CEX"
+        unsupported = [f for f in r["failed"] if "not currently supported by Kani" in f["desc"]]
+        if unsupported:
+            # the model reached something Kani cannot encode: a gap in MY machinery, never a violation
+            r["status"] = "ERROR"
+            r["error"] = "unsupported construct reached: " + unsupported[0]["desc"][:160]
+        else:
+            r["status"] = "UNWIND" if only_unwind else "CEX"
     else:
         r["status"] = "ERROR"
         if not r["error"]:
@@ -262,7 +268,8 @@ TEST_RE = re.compile(r"(/// Test generated for harness.*?\n)?#\[test\]\n(?:#\[[^
 
 
 def extract_playback(h, scratch):
-    """Run Kani with concrete playback on a scratch copy; return (test_name, test_src) or None."""
+    """Run Kani with concrete playback on a scratch copy; return a list of (test_name, test_src)
+    — Kani prints one test per failed check AND per satisfied cover, in source order — or []."""
     if scratch.exists():
         shutil.rmtree(scratch)
     scratch.mkdir(parents=True)
@@ -273,17 +280,22 @@ def extract_playback(h, scratch):
            "--exact", "--harness", h.path, "--target-dir", str(TARGETS / (ALT + h.group))]
     run_cmd(cmd, scratch / h.group, log, max(h.timeout * 2, 600), h.mem_gb)
     text = log.read_text(errors="replace")
-    m = re.search(r"```\n(.*?#\[test\].*?)```", text, re.S)
-    if not m:
-        return None
-    src = m.group(1)
-    nm = re.search(r"fn (kani_concrete_playback_\w+)\(", src)
-    return (nm.group(1), src) if nm else None
+    out, seen = [], set()
+    for m in re.finditer(r"```\n(.*?#\[test\].*?)```", text, re.S):
+        src = m.group(1)
+        nm = re.search(r"fn (kani_concrete_playback_\w+)\(", src)
+        if nm and nm.group(1) not in seen:
+            seen.add(nm.group(1))
+            out.append((nm.group(1), src))
+    # failed-check witnesses first, cover witnesses last
+    out.sort(key=lambda t: 1 if "Check for `cover`" in t[1] else 0)
+    return out[:12]
 
 
-def native_replay(h, test_name, test_src, scratch):
+def native_replay(h, tests, scratch):
     """Compile the harness crate natively (kani's playback library, stubs inactive, cfg(vreplay))
-    and run the recorded values through the real code.  Returns dict profile -> reproduced?"""
+    and run the recorded value vectors through the real code.  `tests` = [(name, src)].
+    Returns dict profile -> verdict; 'reproduced' if ANY recorded vector makes the harness panic."""
     crate = scratch / h.group
     if not crate.exists():
         shutil.copytree(HARN / h.group, crate, ignore=shutil.ignore_patterns("target"))
@@ -296,8 +308,11 @@ def native_replay(h, test_name, test_src, scratch):
     for f in (crate / "src").rglob(f"{h.module}.rs"):
         modfile = f
     body = modfile.read_text()
-    if test_name not in body:
-        modfile.write_text(body + "\n" + test_src + "\n")
+    for name, src in tests:
+        if name not in body:
+            # assertion messages may contain braces: playback compiles them as format strings
+            body += "\n" + src + "\n"
+    modfile.write_text(body)
     out = {}
     for profile in ("dev", "release"):
         env, cargo = playback_env(profile == "release")
@@ -306,22 +321,34 @@ def native_replay(h, test_name, test_src, scratch):
                "-Ztarget-applies-to-host", '--config=host.rustflags=["--cfg=kani_host"]']
         if profile == "release":
             cmd.append("--release")
-        cmd += ["--", test_name, "--exact", "--test-threads", "1"] if False else ["--", test_name]
+        cmd += ["--", "kani_concrete_playback_", "--test-threads", "1"]
         log = scratch / f"replay-{profile}.log"
         rc, to, _ = run_cmd(cmd, crate, log, 900, 32, env)
         text = log.read_text(errors="replace")
         if to:
             out[profile] = "hang"
-        elif re.search(r"test result: FAILED\. 0 passed; 1 failed", text):
-            pm = re.search(r"panicked at ([^\n]*\n[^\n]*)", text)
-            msg = pm.group(1).replace("\n", " ")[:240] if pm else "panic"
+            continue
+        verdicts = []
+        # per-test outcome: "test path::name ... ok|FAILED"; panic messages in the failures section
+        for name, _ in tests:
+            m = re.search(r"test \S*" + re.escape(name) + r" \.\.\. (ok|FAILED)", text)
+            if not m:
+                continue
+            if m.group(1) == "ok":
+                verdicts.append("not-reproduced")
+                continue
+            pm = re.search(r"---- \S*" + re.escape(name) + r" stdout ----\n(.*?)(?:\n\n|\Z)", text, re.S)
+            msg = (pm.group(1) if pm else "panic").replace("\n", " ")[:300]
             if "concrete values left over" in msg:
                 # the harness body ran to its end without any assertion failing; the left-over
                 # values are the draws of stubs that are inactive natively
-                out[profile] = "not-reproduced"
+                verdicts.append("not-reproduced")
             else:
-                out[profile] = "reproduced: " + msg
-        elif re.search(r"test result: ok\. 1 passed", text):
+                verdicts.append("reproduced: " + msg)
+        rep = [v for v in verdicts if v.startswith("reproduced")]
+        if rep:
+            out[profile] = rep[0]
+        elif verdicts:
             out[profile] = "not-reproduced"
         else:
             out[profile] = "replay-error"
@@ -404,14 +431,14 @@ def check(prop, tier, only=None, jobs=None):
         if h.replay == "playback":
             pb = extract_playback(h, scratch)
             if pb:
-                rr = native_replay(h, pb[0], pb[1], scratch)
+                rr = native_replay(h, pb, scratch)
                 r["replay"] = rr
                 REPLAYS.mkdir(exist_ok=True)
                 (REPLAYS / prop).mkdir(exist_ok=True)
                 replay_path = REPLAYS / prop / f"{h.name}.json"
                 replay_path.write_text(json.dumps({
                     "property": prop, "group": h.group, "module": h.module, "harness": h.name,
-                    "failed_checks": new, "test_name": pb[0], "test_src": pb[1], "native": rr,
+                    "failed_checks": new, "tests": pb, "native": rr,
                     "how": f"./check {prop} --replay {replay_path}"}, indent=1))
                 if any(v.startswith("reproduced") or v == "hang" for v in rr.values()):
                     verdict = "reproduced"
@@ -530,12 +557,12 @@ def replay(prop, path):
         print("harness not found")
         return 2
     h = hs[0]
-    if not d.get("test_src"):
+    if not d.get("tests"):
         return check(prop, "thorough", only=h.name)
     scratch = WORK / "replay" / (h.name + "-manual")
     shutil.rmtree(scratch, ignore_errors=True)
     scratch.mkdir(parents=True)
-    rr = native_replay(h, d["test_name"], d["test_src"], scratch)
+    rr = native_replay(h, [tuple(t) for t in d["tests"]], scratch)
     print(json.dumps(rr, indent=1))
     shutil.rmtree(scratch, ignore_errors=True)
     if any(v.startswith("reproduced") or v == "hang" for v in rr.values()):
